@@ -17,6 +17,8 @@ agree = Base.agree; nontrivial = Base.nontrivial; signature = Base.signature; ex
 
 def classify(op, m):
     t = op.split(' ')
+    if t[0] == 'cbor.dec.seq':
+        return f'{t[0]}:{t[1]}:{m.split(" ")[0]}'
     first = t[1][:2] if t[1] != '-' else 'empty'
     ai = (int(first, 16) & 31) if first != 'empty' else -1
     cls = 'empty' if ai < 0 else ('direct' if ai < 24 else {24: 'one', 25: 'two', 26: 'four', 27: 'eight'}.get(ai, 'reserved'))
@@ -102,3 +104,29 @@ def generate(tier, rng):
     for _ in range(3000 if not thorough else 400000):
         op = rng.choice(OPS)
         yield f'{op} {hexs(rbytes(rng, rng.randrange(1, 14)))}'
+    # several decode calls on one decoder, over readers with / without ReadByte, delivering one byte per Read, size-limited:
+    # values, position of the first error, and bytes taken from the underlying reader (no read-ahead past the decoded items)
+    LET = {0: 'u', 2: 'b', 3: 't', 4: 'a', 5: 'm'}
+    for _ in range(400 if not thorough else 8000):
+        items = []
+        for _ in range(rng.randrange(1, 6)):
+            mt = rng.choice([0, 2, 3, 4, 5])
+            if mt in (2, 3):
+                c = bytes(rng.randrange(0x20, 0x7f) for _ in range(rng.choice([0, 1, 3, 23, 24, 30, 300, 5000])))
+                items.append((mt, head(mt, len(c)) + c))
+            else:
+                items.append((mt, head(mt, rng.getrandbits(rng.choice([3, 8, 16, 32, 64])))))
+        stream = b''.join(x[1] for x in items)
+        script = ''.join(LET[x[0]] for x in items)
+        tail = rng.choice([b'', b'PAYLOAD', rbytes(rng, 5000)])
+        for kind in ('bytes', 'plain', 'one', 'limited'):
+            yield f'cbor.dec.seq {kind} {script} {hexs(stream + tail)}'
+            k = rng.randrange(len(script) + 1)
+            yield f'cbor.dec.seq {kind} {script[:k] + rng.choice("ubtam") + script[k:]} {hexs(stream + tail)}'      # one extra / mistyped call
+            yield f'cbor.dec.seq {kind} {script}{rng.choice("ubtam")} {hexs(stream)}'                                 # a call at end of input
+            if stream: yield f'cbor.dec.seq {kind} {script} {hexs(stream[:rng.randrange(len(stream))])}'             # truncated
+    for kind in ('bytes', 'plain', 'one', 'limited'):
+        for c in 'ubtam':
+            yield f'cbor.dec.seq {kind} {c} -'
+            yield f'cbor.dec.seq {kind} {c}{c} {hexs(head(0, 5))}'
+
